@@ -224,6 +224,8 @@ class SymEnv:
             if isinstance(n.op, ast.Sub):
                 return a - b
             if isinstance(n.op, ast.Mult):
+                if a.sort() == R and getattr(self.g, 'uf_mul', False):
+                    return self.g.rmul(a, b)
                 return a * b
             if isinstance(n.op, ast.Div):
                 return a / b
